@@ -786,6 +786,25 @@ func (bf *boundsFn) buildBase() {
 				// len <= hi (since lo >= 0)
 				bf.addBase(la, lo, hiA, hiO, 0, "len(s[a:b]) <= b", x)
 			}
+		case *ssa.IndexAddr:
+			// an index expression that did not panic: i < len(s) from then on
+			if isSliceOrString(x.X.Type()) {
+				ia, io := bf.atom(x.Index)
+				la, lo := bf.lenAtom(x.X)
+				bf.addBase(ia, io+1, la, lo, 0, "s[i] was evaluated: i < len(s)", x)
+			}
+		case *ssa.Index:
+			if isSliceOrString(x.X.Type()) {
+				ia, io := bf.atom(x.Index)
+				la, lo := bf.lenAtom(x.X)
+				bf.addBase(ia, io+1, la, lo, 0, "s[i] was evaluated: i < len(s)", x)
+			}
+		case *ssa.Lookup:
+			if isSliceOrString(x.X.Type()) {
+				ia, io := bf.atom(x.Index)
+				la, lo := bf.lenAtom(x.X)
+				bf.addBase(ia, io+1, la, lo, 0, "s[i] was evaluated: i < len(s)", x)
+			}
 		case *ssa.MakeSlice:
 			la, lo := bf.lenAtom(x)
 			a, o := bf.atom(x.Len)
@@ -1012,7 +1031,7 @@ func defDominates(v ssa.Value, at ssa.Instruction) bool {
 		return false
 	}
 	if ins.Block() == at.Block() {
-		return instrPos(ins).i < instrPos(at).i || ins == at
+		return instrPos(ins).i < instrPos(at).i
 	}
 	return ins.Block().Dominates(at.Block())
 }
@@ -1070,6 +1089,12 @@ func (bf *boundsFn) prove(a string, ao int64, b string, bo int64, at ssa.Instruc
 		}
 	}
 	// a - b <= dist[a]; need a + ao - b - bo <= 0
+	if os.Getenv("DBGPROVE") != "" {
+		fmt.Fprintf(os.Stderr, "prove %s%+d <= %s%+d at %s: dist=%d\n", a, ao, b, bo, bf.p.describe(at), dist[a])
+		for _, c := range cs {
+			fmt.Fprintf(os.Stderr, "   %s - %s <= %d   (%s)\n", c.a, c.b, c.c, c.why)
+		}
+	}
 	return dist[a] < math.MaxInt64/8 && dist[a]+ao-bo <= 0
 }
 
